@@ -37,16 +37,16 @@ MUTANTS = [
     ("m07a", "C07", "caught", "numbat/src/command.rs",
      "                            include_err_lines: false,", "                            include_err_lines: true,",
      "save also writes failing lines"),
-    ("m07b", "C07", "caught", "numbat/src/command.rs",
+    ("m07b", "C07", "benign", "numbat/src/command.rs",
      "                            trim_lines: true,", "                            trim_lines: false,",
-     "save does not trim lines"),
+     "NEGATIVE CONTROL: save does not trim lines (white space around saved entries does not change what a replay does; DESIGN §7)"),
     ("m07e", "C07", "caught", "numbat/src/session_history.rs",
      "            writeln!(w, \"{input}\").map_err(&err_fn)?", "            write!(w, \"{input} \").map_err(&err_fn)?",
      "save separates lines by a space instead of a newline"),
-    ("m07g", "C07", "caught", "numbat/src/vm.rs",
+    ("m07g", "C07", "benign", "numbat/src/vm.rs",
      "                        self.last_result = Some(return_value.clone());\n",
      "                        if self.last_result.is_none() {\n                            self.last_result = Some(return_value.clone());\n                        }\n",
-     "ans/_ keeps the first result of the session instead of the last"),
+     "NEGATIVE CONTROL for C07: ans/_ keeps the first result of the session instead of the last — wrong, but in every execution mode alike, so no mode disagrees (DESIGN §7)"),
     ("m17a", "C17", "caught", "numbat/src/resolver.rs",
      "                    if !self.imported_modules.iter().any(|m| &m.0 == module_path) {",
      "                    if !self.imported_modules.iter().any(|m| &m.0 == module_path && m.0.len() > 1) {",
